@@ -63,7 +63,12 @@ def gen_run(rng):
 
 def check_run(case, dist, na, seed, lines):
     P = []
-    r = orch.run_orchestrated(case, "dpop", {}, na, dist, seed, timeout=T, lines=lines, p_long=0.02, start_delays=True, watchdog=45.0)
+    # the three ways the orchestrator collects values and metrics (solve -c value_change | cycle_change | period)
+    import random as _r
+    cm = _r.Random(seed + 3).choice(["value_change", "value_change", "cycle_change", "period"])
+    r = orch.run_orchestrated(case, "dpop", {}, na, dist, seed, timeout=T, lines=lines, p_long=0.02, start_delays=True, watchdog=45.0,
+                              collect_moment=cm, period=0.05 if cm == "period" else None)
+    r["collect_moment"] = cm
     W = {"case": case, "dist": dist, "nagents": na, "seed": seed, "lines": lines, "mapping": r.get("mapping"),
          "status": r.get("status"), "run_wall": r.get("run_wall")}
     if "dist_error" in r:
@@ -263,6 +268,9 @@ def cli_solve_run(case, dist, na, seed):
         argv = [sys.executable, "-W", "ignore", "-c", code, "-t", str(int(T)), "--output", out, "solve", "--algo", "dpop", "-d", darg,
                 "--infinity", "10000",  # the command's default is float('inf'); the instances use 10000 as the API runs do
                 os.path.join(d, "dcop.yaml")]
+        cm = rng.choice(["value_change", "cycle_change", "period"])
+        r["collect_moment"] = "command line -c " + cm
+        argv[argv.index("--algo"):argv.index("--algo")] = ["-c", cm] + (["--period", "0.1"] if cm == "period" else [])
         t0 = time.time()
         try:
             pr = subprocess.run(argv, cwd=d, stdout=subprocess.PIPE, stderr=subprocess.STDOUT, text=True, timeout=T + 60)
@@ -333,6 +341,7 @@ def worker(job):
                        "palette": case["palette"], "dist": dist, "mapping": mapping, "status": r.get("status"),
                        "metrics": r.get("metrics"), "run_wall": r.get("run_wall"), "injected": r.get("injected")} if nontrivial and i % 6 == 0 else None)
         R.bump("outcomes", outcome)
+        R.bump("collect_modes", str(r.get("collect_moment", "value_change (API / command line default)")))
         if r.get("start_delays"):
             R.count("agents_started_late", len(r["start_delays"]))
         R.bump("distributions", dist)
